@@ -1,7 +1,8 @@
 ----------------------------- MODULE Lifecycle -----------------------------
 (* Life cycle of a signed metadata block (C09, C05):                        *)
 (*   Construct (direct constructor or builder, 1..3 signers)                *)
-(*   -> Write (compact | pretty) -> Read                                    *)
+(*   -> Write (compact | pretty) -> Read (the block as read is verified    *)
+(*      once per signer: it must verify, and that changes nothing)          *)
 (*   -> optional Edit of one field of the signed part                       *)
 (*   -> optional mutation of the signatures / of the verifier's key         *)
 (*   -> Verify(keys, t)                                                     *)
